@@ -295,6 +295,71 @@ func genSweep(r *vproto.Rng, par [2]int, kind string) *rtwire.Hist {
 	return h
 }
 
+// drain: grow to (at least) three levels, delete every object, and after EACH deletion ask
+// NearestNeighbors with k in {1,2,3,7} (NearestNeighbor only while something is stored: its panic
+// on the empty tree is documented); ends on the empty tree, optionally refilled.
+func genDrain(r *vproto.Rng, par [2]int, kind string, order int) *rtwire.Hist {
+	n := 3*par[1] + r.Intn(2*par[1]+1)
+	if n > 40 {
+		n = 40
+	}
+	h := rtwire.GenHist(r, 3, par, kind, n, 1)
+	h.Ops = nil
+	h.KQs = []rtwire.KQ{}
+	h.Class = fmt.Sprintf("nn-drain-%s-m%dM%d", kind, par[0], par[1])
+	s := &st{h: h}
+	sc := h.Scale
+	if sc == 0 {
+		sc = 1
+	}
+	pt := func() (float64, float64) {
+		o := h.Pool[r.Intn(len(h.Pool))]
+		return o.MinX + float64(r.Range(-2, 2))*sc, o.MaxY + float64(r.Range(-2, 2))*sc
+	}
+	x, y := pt()
+	for _, k := range []int{1, 2, 3, 7} { // fresh tree
+		s.ask(x, y, k)
+	}
+	for id := 0; id < n && id < len(h.Pool); id++ {
+		s.ins(id)
+	}
+	ks := []int{1, 2, 3, 7}
+	for len(s.present) > 0 {
+		var id int
+		switch order {
+		case 0:
+			id = s.present[0]
+		case 1:
+			id = s.present[len(s.present)-1]
+		default:
+			id = s.present[r.Intn(len(s.present))]
+		}
+		s.del(id)
+		x, y = pt()
+		s.ask(x, y, ks[len(s.present)%4])
+		if len(s.present) <= 3 {
+			for _, k := range ks {
+				s.ask(x, y, k)
+			}
+		}
+		if len(s.present) > 0 && r.Chance(0.3) {
+			s.ask(x, y, 0)
+		}
+	}
+	s.del(0) // absent object on the empty tree
+	for _, k := range ks {
+		s.ask(x, y, k)
+	}
+	if r.Bool() {
+		s.ins(0)
+		s.ask(x, y, 1)
+		s.ask(x, y, 0)
+		s.del(0)
+		s.ask(x, y, 1)
+	}
+	return h
+}
+
 func gen(seed uint64, tier string) []*rtwire.Hist {
 	r := vproto.NewRng(seed ^ 0xC12)
 	var hs []*rtwire.Hist
@@ -383,8 +448,33 @@ func gen(seed uint64, tier string) []*rtwire.Hist {
 		}
 		hs = append(hs, h)
 	}
+	// NearestNeighbors on trees that store nothing: fresh, and emptied by deletes
+	for ki, kind := range rtwire.Kinds {
+		pool := []rtwire.Box{{MinX: 1, MinY: 1, MaxX: 2, MaxY: 2}, {MinX: 4, MinY: 0, MaxX: 4, MaxY: 0}}
+		if kind == "pt" {
+			pool[0] = rtwire.Box{MinX: 1, MinY: 1, MaxX: 1, MaxY: 1}
+		}
+		h := &rtwire.Hist{Class: "nn-corpus-empty-tree", Min: 2, Max: 4 + ki, Kind: kind, Pool: pool,
+			Queries: []rtwire.Box{{MinX: 0, MinY: 0, MaxX: 1, MaxY: 1}}, KQs: []rtwire.KQ{}}
+		s := &st{h: h}
+		for _, k := range []int{1, 2, 3, 7} {
+			s.ask(0.5, 0.5, k)
+		}
+		s.ins(0)
+		s.ask(0.5, 0.5, 1)
+		s.del(0)
+		for _, k := range []int{1, 2, 3, 7} {
+			s.ask(3, 3, k)
+		}
+		s.del(1)
+		s.ask(3, 3, 1)
+		hs = append(hs, h)
+	}
 	for _, h := range hs {
 		askAll(h)
+	}
+	for i := 0; i < 18; i++ {
+		hs = append(hs, genDrain(r, [][2]int{{2, 4}, {2, 3}, {2, 5}, {3, 6}, {3, 7}, {4, 8}}[i%6], rtwire.Kinds[(i/6)%3], i%3))
 	}
 	n := 500
 	if tier == "thorough" {
